@@ -175,7 +175,7 @@ macro_rules! rt_ack {
             let p = Packet::Ack { sequence, ack_ranges };
             let q = roundtrip(&p, len);
             assert!(p == q, "Ack does not denote the same set of sequences after a round trip");
-            kani::cover!($n > 1 && starts[1] == ends[0] + 1, "gap of exactly one");
+
             kani::cover!(ends[0] == starts[0] + 1, "single-element range");
             std::mem::forget(p);
             std::mem::forget(q);
@@ -310,19 +310,19 @@ fn ser_short_buffer() {
     std::mem::forget(p);
 }
 
-/// vacuity witness (must FAIL)
+/// vacuity witness (must FAIL).  Serializer only: anything that goes through the parser costs > 12 GB.
 #[kani::proof]
 #[kani::unwind(8)]
 fn pk_witness() {
-    let mut messages = Vec::new();
-    messages.push(bytes_n(1));
-    let p = Packet::SmallUnreliable { sequence: any_id(), channel_id: 1, messages };
-    let q = roundtrip(&p, 1 + varint_len(p.sequence()) + 1 + 2 + 1 + 1);
-    if p == q {
+    let p = Packet::Ack { sequence: any_id(), ack_ranges: vec![3..5] };
+    let mut out = [0u8; 64];
+    let mut w = octets::OctetsMut::with_slice(&mut out);
+    let r = p.to_bytes(&mut w);
+    if r.is_ok() {
         assert!(false, "witness");
     }
+    std::mem::forget(r);
     std::mem::forget(p);
-    std::mem::forget(q);
 }
 
 // =====================================================================================================================
